@@ -37,7 +37,7 @@ ASSUMPTIONS = [
     'during the hostile phase the harness is the peer: what the victim writes is read and ignored (two real Protocols would otherwise bounce an event named send for ever)',
     'a failing case is attributed to known findings only through neutralised twins; when several known triggers are present the smallest set of triggers whose neutralisation makes the case pass is used',
 ]
-REQUIRED = ['remote_handler_returned_a_falsy_result', 'firewalls_given_to_a_node_component_server', 'firewalls_given_to_a_node_component_node', 'firewalls_given_to_a_node_component_client', 'send_and_receive_firewalls_disagree', 'locally_fired_event_bound_to_the_peer', 'event_relayed_to_another_connection', 'calls_executed_remotely', 'results_received', 'cut_inside_packet', 'cut_inside_delimiter', 'byte_at_a_time_cases',
+REQUIRED = ['calls_in_flight_on_several_outgoing_connections_with_equal_packet_ids', 'remote_handler_returned_a_falsy_result', 'firewalls_given_to_a_node_component_server', 'firewalls_given_to_a_node_component_node', 'firewalls_given_to_a_node_component_client', 'send_and_receive_firewalls_disagree', 'locally_fired_event_bound_to_the_peer', 'event_relayed_to_another_connection', 'calls_executed_remotely', 'results_received', 'cut_inside_packet', 'cut_inside_delimiter', 'byte_at_a_time_cases',
             'packet_over_4k', 'inflight_ge2', 'server_to_client_calls', 'client_to_server_calls', 'send_firewall_rejections',
             'recv_firewall_rejections', 'firewall_consulted', 'receiver_raised', 'receiver_generator', 'hostile_packets',
             'hostile_meta_keys_tried', 'hostile_unhashable_channels', 'hostile_truncated', 'hostile_wrong_type', 'hostile_deep_nesting',
@@ -1171,7 +1171,124 @@ def run_case(case):
         return run_roundtrip(case)
     if kind == 'wiring':
         return run_wiring(case)
+    if kind == 'clients':
+        return run_clients(case)
     raise ValueError(kind)
+
+
+def run_clients(case):
+    """Several OUTGOING connections (circuits.node.client.Client, what Node.add() creates) in one component tree, each on its own channel,
+    with calls in flight on all of them at once: what is sent to one peer is transmitted on that connection only, and every waiting
+    handler gets the answer of its own peer (packet ids are per connection and start at 0 everywhere).  The transports are recorders."""
+    from circuits import BaseComponent, handler
+    from circuits.core.events import Event
+    from circuits.net.events import read
+    from circuits.node.client import Client
+    n = case['n']
+    chans = ['conn%d' % i for i in range(n)]
+    written = {c: [] for c in chans}
+    exc = []
+
+    class Root(BaseComponent):
+        @handler('exception', channel='*')
+        def _vq9_exc(self, etype, evalue, tb, handler=None, fevent=None):
+            exc.append(repr(evalue))
+
+    def recorder(ch):
+        class Rec(BaseComponent):
+            channel = ch
+
+            @handler('write')
+            def _vq9_write(self, *args):
+                if args and isinstance(args[-1], bytes):
+                    written[ch].append(args[-1])
+        return Rec()
+
+    root = Root()
+
+    def settle():
+        for _ in range(400):
+            if not len(root) and not root._tasks:
+                return
+            root.flush()
+            for t in list(root._tasks):
+                root.processTask(*t)
+        raise Unsettled('clients case')
+
+    clients = []
+    for ch in chans:
+        cl = Client('127.0.0.1', 9, channel=ch)     # (never started: nothing connects; the transport is the recorder)
+        cl.register(root)
+        for c in list(cl.components):
+            if type(c).__name__ == 'TCPClient':
+                c.unregister()
+        recorder(ch).register(root)
+        clients.append(cl)
+    settle()
+    # calls: (connection, name, arg) in the given order, all in flight together
+    its, got = [], {}
+    for k, (ci, name, arg) in enumerate(case['calls']):
+        ev = Event.create(name, arg)
+        ev.channels = ('app',)
+        it = clients[ci].send(ev)
+        next(it)
+        its.append((k, ci, it, ev))
+        if case.get('settle_between'):
+            settle()
+    settle()
+    problems, counts = [], {}
+    sent = {}
+    for ch in chans:
+        sent[ch] = [(p[0].get('id'), p[0].get('name'), (p[0].get('args') or [None])[0]) for p in ref_packets(b''.join(written[ch])) if isinstance(p[0], dict) and 'name' in p[0]]
+    ids = {}
+    for ci, ch in enumerate(chans):
+        want = [(name, arg) for (cj, name, arg) in case['calls'] if cj == ci]
+        have = [(nm, a) for (_i, nm, a) in sent[ch]]
+        if have != want:
+            problems.append(('EXACTLY_ONCE', {'connection': ch, 'transmitted_on_this_connection': have, 'sent_to_this_peer': want,
+                                              'note': 'an event sent to one peer goes out on that peer\'s connection, once, and on no other'}, 'clients-crosstalk'))
+        else:
+            counts['ok:EXACTLY_ONCE'] = counts.get('ok:EXACTLY_ONCE', 0) + len(want)
+        ids[ch] = [i for (i, _n, _a) in sent[ch]]
+    if problems:
+        return problems, {'marks': {'several_outgoing_connections_in_one_tree'}, 'counts': counts, 'nontrivial': True}
+    # every peer answers what it was sent (in the order given by the case), with a result that names the peer and the call
+    order = list(range(len(case['calls'])))
+    if case.get('answers') == 'reversed':
+        order.reverse()
+    per_conn_pos = {}
+    call_id = {}
+    for k, (ci, name, arg) in enumerate(case['calls']):
+        pos = per_conn_pos.get(ci, 0)
+        per_conn_pos[ci] = pos + 1
+        call_id[k] = ids[chans[ci]][pos]
+    for k in order:
+        ci, name, arg = case['calls'][k]
+        pkt = json.dumps({'id': call_id[k], 'errors': False, 'value': 'result of %s(%r) at peer %d' % (name, arg, ci), 'meta': {}}).encode('utf-8') + DELIM
+        root.fire(read(pkt), chans[ci])
+        settle()
+    for k, ci, it, ev in its:
+        val = None
+        try:
+            for v in it:
+                if v is not None:
+                    val = v
+                    break
+        except Exception as e:  # noqa: BLE001
+            val = 'raised:' + repr(e)
+        got[k] = getattr(val, 'value', val)
+    for k, (ci, name, arg) in enumerate(case['calls']):
+        want = 'result of %s(%r) at peer %d' % (name, arg, ci)
+        if got.get(k) != want:
+            problems.append(('RESULT_BACK', {'call': k, 'connection': chans[ci], 'expected': want, 'received': repr(got.get(k))[:200]}, 'clients-result'))
+        else:
+            counts['ok:RESULT_BACK'] = counts.get('ok:RESULT_BACK', 0) + 1
+    marks = {'several_outgoing_connections_in_one_tree'}
+    if len({ci for ci, _n, _a in case['calls']}) >= 2:
+        marks.add('calls_in_flight_on_several_outgoing_connections_with_equal_packet_ids')
+    if exc:
+        problems.append(('LOOP_SURVIVES', {'exceptions': exc[:3]}, 'clients-exc'))
+    return problems, {'marks': marks, 'counts': counts, 'nontrivial': True}
 
 
 def run_wiring(case):
@@ -1802,6 +1919,12 @@ def corpus():
         for fw in ({'send': {'deny_names': ['secret']}, 'recv': {'deny_names': ['admin']}}, {'send': {'deny_names': ['secret']}},
                    {'recv': {'deny_names': ['admin']}}, {'send': {'deny_all': True}, 'recv': {}}, {'send': {}, 'recv': {'deny_all': True}}, {}):
             cs.append({'kind': 'wiring', 'which': which, 'names': ['hello', 'secret', 'admin'], 'fw': fw})
+    # several outgoing connections in one tree (what two Node.add() calls give), calls in flight on all of them, answers in either order
+    for n, calls_ in ((2, [(0, 'task_e', 1), (1, 'task_f', 2)]), (2, [(0, 'hello', 1), (0, 'hello', 2), (1, 'hello', 3)]),
+                      (3, [(2, 'a', 1), (0, 'b', 2), (1, 'c', 3), (0, 'd', 4), (2, 'e', 5)]), (2, [(1, 'only', 1)])):
+        for answers in ('in-order', 'reversed'):
+            for sb in (False, True):
+                cs.append({'kind': 'clients', 'n': n, 'calls': [list(c) for c in calls_], 'answers': answers, 'settle_between': sb})
     # remote handler raises (plain and generator)
     cs.append(calls_case([call('c0', 'hello', [1])], {'hello': 'boom'}))
     cs.append(calls_case([call('c0', 'hello', [1], style='call', failure=True)], {'hello': 'genboom'}))
